@@ -252,7 +252,7 @@ func trimDec(s string) string {
 	return s
 }
 
-var junkAmounts = []string{"", "abc", "1.2.3", "NaN", "Infinity", "-1", "-0.000001", "0.0000001", "1.0000005", "+5", " 1", "1 ", "0x10", "١٢٣", "1e-7", "1_000", ".5", "5.", "-0", "1e400", "1e-400", "00", "0e0"}
+var junkAmounts = []string{".-5", "1.-5", ".-000001", "+.-12", "0.-5", "", "abc", "1.2.3", "NaN", "Infinity", "-1", "-0.000001", "0.0000001", "1.0000005", "+5", " 1", "1 ", "0x10", "١٢٣", "1e-7", "1_000", ".5", "5.", "-0", "1e400", "1e-400", "00", "0e0"}
 
 // amountUpTo generates a credit amount relative to an available balance.
 func (g *Gen) amountUpTo(avail *big.Rat) string {
